@@ -46,12 +46,15 @@ Inductive cpol :=
 Inductive citem :=
 | CFixed (psk : bool) (n : Uint63.int)         (* extension with Len() = n; emitted bytes are in [data] *)
 | CPad (pol : cpol) (plen : Uint63.int) (will : bool)   (* padding extension: functor and state BEFORE the call, *)
-       (obslen : Uint63.int).                  (*   and its Len() AFTER the call *)
+       (obslen : Uint63.int)                   (*   and its Len() AFTER the call *)
+| CAdded (obslen : Uint63.int).                (* the padding extension AlwaysAddPadding appended/inserted: NOT an
+                                                  input of the model, which must put one at this very position *)
 
 Inductive case :=
 | CM (fromraw : option Uint63.int)
                             (* Some n: spec obtained by FromRaw from a capture of n bytes (record header
                                included); the model installs the policy on the first padding extension *)
+     (addpad : bool)        (* Fingerprinter.AlwaysAddPadding: the model applies always_add_padding after FromRaw *)
      (vers : Uint63.int) (sidlen : Uint63.int) (suites : list Uint63.int) (comp : list Uint63.int)
      (items : list citem)
      (ok : bool)            (* MarshalClientHello succeeded and [data] is Hello.Raw *)
@@ -70,22 +73,45 @@ Fixpoint cut_items (items : list citem) (b : bytes) : list aext :=
   | CFixed psk n :: r => fixed_ext psk (take (w2n n) b) :: cut_items r (drop (w2n n) b)
   | CPad pol l w obs :: r =>
       APad (pol_of pol) {| p_len := w2n l; p_will := w |} :: cut_items r (drop (w2n obs) b)
+  | CAdded obs :: r => cut_items r (drop (w2n obs) b)
   end.
+
+(* where the runner saw the added padding extension / where the model has its (first) padding extension *)
+Fixpoint added_index (items : list citem) : option nat :=
+  match items with
+  | [] => None
+  | CAdded _ :: _ => Some O
+  | _ :: r => option_map S (added_index r)
+  end.
+Fixpoint pad_index (es : list aext) : option nat :=
+  match es with
+  | [] => None
+  | APad _ _ :: _ => Some O
+  | _ :: r => option_map S (pad_index r)
+  end.
+Definition onat_eqb (a b : option nat) : bool :=
+  match a, b with Some x, Some y => Nat.eqb x y | None, None => true | _, _ => false end.
 
 (* spare capacity of the bytes.Buffer: Go guarantees at least MinRead *)
 Definition bbs512 : N -> N := fun _ => 512.
 
 Definition check (c : case) : bool :=
   match c with
-  | CM fromraw vers sidlen suites comp items ok datalen dataw =>
+  | CM fromraw addpad vers sidlen suites comp items ok datalen dataw =>
       let data := pk (w2n datalen) dataw in
       let random := take 32 (drop 6 data) in
       let sid := take (w2n sidlen) (drop 39 data) in
       let h := {| h_vers := w2n vers; h_random := random; h_sid := sid;
                   h_suites := map w2n suites; h_comp := map w2n comp |} in
       let block := drop (4 + header_length h + 2) data in
-      let es := cut_items items block in
-      let es := match fromraw with Some n => from_raw_install (w2n n) es | None => es end in
+      let es0 := cut_items items block in
+      let es1 := match fromraw with Some n => from_raw_install (w2n n) es0 | None => es0 end in
+      let es := if addpad then always_add_padding es1 else es1 in
+      (* a padding extension is added exactly when none was there, and at the observed position *)
+      (match added_index items with
+       | Some i => addpad && onat_eqb (pad_index es0) None && onat_eqb (pad_index es) (Some i)
+       | None => negb addpad || negb (onat_eqb (pad_index es0) None) || onat_eqb (pad_index es) None
+       end) &&
       match marshal_client_hello bbs512 h es with
       | Ok b => ok && bytes_eqb b data
       | Err _ => negb ok
